@@ -625,3 +625,72 @@ HS_SETITEM = Spec(qualname="HeaderSet.__setitem__", name="hs_setitem", params=_H
 @generator("PyFns_HeaderSet")
 def gen_headerset():
     return emit("HeaderSet", [HS_UPDATE, HS_ADD, HS_REMOVE, HS_DISCARD, HS_SETITEM])
+
+
+# --------------------------------------------------------------------------
+# C19: DechunkedInput (serving.py): state `_done`, `_len`; the collaborator `_rfile` is the list
+# of bytes still to come (`wire`), as in Model/Chunked.lean; the caller's buffer is handed back
+
+def _decode_latin1(n):
+    m = chain_matcher(("decode", ("latin1",)))
+    return m(n)
+
+
+def _int16(n):
+    """`int(X, 16)` -> [X]"""
+    import ast
+
+    if isinstance(n, ast.Call) and isinstance(n.func, ast.Name) and n.func.id == "int" and len(n.args) == 2 and not n.keywords:
+        b = n.args[1]
+        if isinstance(b, ast.Constant) and b.value == 16 and type(b.value) is int:
+            return [n.args[0]]
+    return None
+
+
+_RFILE = {
+    "self._rfile.readline": Fn("Wz.Chunked.readline", [], py2lean.BYTES, effect_key="self.wire"),
+    "self._rfile.read": Fn("rfileRead", [INT], py2lean.BYTES, effect_key="self.wire"),
+}
+_C19_PATTERNS = [
+    (_decode_latin1, Fn("Wz.Py.latin1Dec", [py2lean.BYTES], STR)),
+    # int(text, 16): the hand model's `pyInt16` (validated by stream chunklen), ValueError for none
+    (_int16, Fn("int16", [STR], INT, raises=("ValueError",))),
+]
+READ_CHUNK_LEN = Spec(
+    module="serving.py",
+    qualname="DechunkedInput.read_chunk_len",
+    name="read_chunk_len",
+    params=[("self.wire", "Bytes")],
+    state=["wire"],
+    result="Int",
+    raises=True,
+    calls=_RFILE,
+    patterns=_C19_PATTERNS,
+)
+DECHUNK_READINTO = Spec(
+    module="serving.py",
+    qualname="DechunkedInput.readinto",
+    name="readinto",
+    params=[("self._done", "Bool"), ("self._len", "Int"), ("self.wire", "Bytes"), ("buf", "Bytes")],
+    state=["_done", "_len", "wire", "buf"],
+    result="Int",
+    raises=True,
+    calls=dict(_RFILE, **{"self.read_chunk_len": Fn("read_chunk_len", [], INT, raises=("OSError",), state=("self.wire",))}),
+    patterns=_C19_PATTERNS,
+)
+
+
+@generator("PyFns_Chunked")
+def gen_chunked():
+    extra = """/-- `rfile.read(n)` on the bytes still to come: `n` bytes unless the stream ends first (the
+convention of Model/Chunked.lean); `(data, rest)` -/
+def rfileRead (wire : Bytes) (n : Int) : Bytes × Bytes := (wire.take n.toNat, wire.drop n.toNat)
+
+/-- `int(text, 16)`: the hand model's `pyInt16`, `ValueError` where it answers `none` -/
+def int16 (s : Pre.Str) : Except String Int :=
+  match Wz.Chunked.pyInt16 s with
+  | some i => .ok i
+  | none => .error "ValueError"
+
+"""
+    return emit("Chunked", [READ_CHUNK_LEN, DECHUNK_READINTO], imports=["WzVerif.Model.Chunked"], extra=extra)
